@@ -293,6 +293,40 @@ Theorem c16_frame_separate : forall bsz E iv s off n doff,
 Proof. exact bstep_to_frame. Qed.
 Print Assumptions c16_frame_separate.
 
+(* ---------- who owns the key and IV buffers ----------
+   The model's constructors (new_crypt, new_direct) are functions of VALUES: they cannot modify
+   the key / iv they are given, and no step of an instance reads the caller's key buffer again
+   (the key is consumed by the constructor).  The block-cipher wrappers of the code do keep the
+   caller's IV slice (c.iv = iv, no copy), so each call reads what that buffer holds at the
+   time; istep_env takes that content (ivnow) as an argument.
+   c16_owner_semantics: whatever the IV buffer holds at the call, the output is CFB under the
+   key fixed at construction and THAT content - nothing else of the caller's memory matters.
+   c16_owner_iv_partial: if the caller leaves the IV buffer alone, istep_env is istep, so all
+   theorems above apply.
+   c16_owner_iv_refuted: "an instance does not depend on its argument buffers after the
+   constructor returned" is FALSE for the IV of the block ciphers on the current tree (a
+   caller that reuses its IV buffer changes every later packet); recorded as a known finding,
+   not repaired here (the one-line repair `iv: append([]byte(nil), iv...)` in the five
+   constructors is the coordinator's call: it touches lines the kept seeded patches edit). *)
+Theorem c16_owner_semantics : forall BC KS c k iv cr ivnow o,
+  cr_ok (cid_bs c) cr -> cid_bs c <= length ivnow ->
+  exists cr', istep_env BC KS (IBlock c k iv cr) ivnow o =
+              Some (cfb_op (cid_bs c) (BC c k) ivnow o, IBlock c k iv cr') /\ cr_ok (cid_bs c) cr'.
+Proof. exact owner_semantics. Qed.
+Print Assumptions c16_owner_semantics.
+
+Theorem c16_owner_iv_partial : forall BC KS i o,
+  istep_env BC KS i (acc_iv i) o = istep BC KS i o.
+Proof. exact owner_unchanged_iv. Qed.
+Print Assumptions c16_owner_iv_partial.
+
+Theorem c16_owner_iv_refuted :
+  exists BC KS name key iv ivnow m i,
+    new_crypt name key iv = Some i /\ length ivnow = length iv /\
+    option_map fst (istep_env BC KS i ivnow (Enc m)) <> option_map fst (istep BC KS i (Enc m)).
+Proof. exact owner_iv_refuted. Qed.
+Print Assumptions c16_owner_iv_refuted.
+
 (* ---- source tie: the tail helper xorBytes, regenerated from x/cipher/block.go on every run ---- *)
 From Coq Require Import ZArith.
 From FV Require Import Generated.CipherXor C16.Source.
